@@ -311,20 +311,28 @@ class CHECK(vlib.Check):
     prop_file = "Properties_C09.v"
     model = ("Cont/HtExtract.v", "ht_driver.ml", "ht", ("ocommon.ml",))
     harness = dict(name="ht", src="ht_h.cpp", san="asan", link_lib=True)
-    modelled = ("util/Hashtable.h + util/HashtableIterator.h, iteration layer: entry key/value, ITER_PREV/ITER_NEXT links, "
-                "_iterHeadIdx/_iterTailIdx/_numItems/_tableSize/_autoSortEnabled/_iterList; InsertIterationEntry, RemoveIterationEntry "
-                "(iterator patching with scratch pair), MoveTo{Front,Back,Before,Behind,Position}Aux, InsertIterationEntryInOrder, "
-                "MoveIterationEntryToCorrectPosition, PutAux (replace / grow / insert), all Put*/Get*/Remove*/MoveTo*/IndexOf*/"
-                "GetKeyAt/GetValueAt, EnsureSize/ShrinkToFit/EnsureCanPut size policy, Clear, CopyFrom/copy construction, SwapContents, "
-                "IsEqualTo, MoveToTable/CopyToTable, Remove(table), Intersect, SetAutoSortEnabled, Reposition, destruction; "
-                "HashtableIterator: construction (registered / not registered when empty), ++, --, SetBackwards, assignment, destruction. "
-                "Effect level: SortByEntry (stable sort + relink), Clear's entry loop.  Not modelled (corresponded + harness oracle only): "
-                "bucket chains, _mapTo/_mappedFrom, free list, 8/16/32-bit index width, reallocation and the iterator re-pointing "
-                "in EnsureSize, hash functors, thread-id bookkeeping of iterator registration.")
+    modelled = ("util/Hashtable.h + util/HashtableIterator.h, iteration layer (L1, coq/theories/Cont/HtModel.v, HtStep.v): entry key/value, "
+                "ITER_PREV/ITER_NEXT links, _iterHeadIdx/_iterTailIdx/_numItems/_tableSize/_autoSortEnabled/_iterList; InsertIterationEntry, "
+                "RemoveIterationEntry (iterator fix-up: scratch pair, cookie to the subsequent entry), MoveTo{Front,Back,Before,Behind,Position}Aux "
+                "(repaired 5556955), InsertIterationEntryInOrder, MoveIterationEntryToCorrectPosition, PutAux (replace / grow / insert, "
+                "EnsureTableAllocated fallback of 9ea4433), all Put*/Get*/Remove*/MoveTo*/IndexOf*/GetKeyAt/GetValueAt/GetKeyBefore/After, "
+                "EnsureSize/ShrinkToFit/EnsureCanPut size policy, Clear, CopyFrom / copy construction, SwapContents / move assignment, move "
+                "construction, PreallocatedItemSlotsCount construction, IsEqualTo, MoveToTable/CopyToTable, Remove(table), Intersect, "
+                "SetAutoSortEnabled, Reposition, destruction; HashtableIterator: construction (registered / unregistered when empty), ++, --, "
+                "SetBackwards, assignment, destruction.  Ideal ordered map (L0, HtIdeal.v) with capacity and auto-sort attribute.  Proved: world "
+                "invariant for every operation, iterator safety, refinement L1 = L0 with equal results for every operation and all three classes, "
+                "traversal no-skip / no-duplicate for calm interleavings, sorted order of the auto-sorting classes.  Effect level: SortByEntry "
+                "(stable sort + relink), Clear's entry loop.  Not modelled (corresponded + harness oracle only): bucket chains, _mapTo/_mappedFrom, "
+                "free list, 8/16/32-bit index width, reallocation and the iterator re-pointing in EnsureSize, hash functors, thread-id bookkeeping "
+                "of iterator registration.")
     premises = ["memory safety and object lifetime of the C++ (observed by ASan/UBSan in the harness only)",
-                "node identifiers of the model are abstract: slot assignment, bucket chains, index width and reallocation are not modelled",
-                "sizes and counts below 2^32 (uint32 wrap-around is not modelled)",
-                "single thread (iterator registration is never refused)"]
+                "node identifiers of the model are abstract (fresh per entry, never reused): slot assignment, bucket chains, index width and "
+                "reallocation are not modelled; GetEntry(hash,key) is modelled as the entry of the iteration list holding the key",
+                "sizes and counts below 2^32 (uint32 wrap-around is not modelled); allocation never fails",
+                "single thread (iterator registration is never refused)",
+                "traversal theorems: operations that may relink a surviving entry (MoveTo*, PutAt*, Sort*, Reposition, Put on an existing key of an "
+                "auto-sorting table, CopyFrom, Intersect) are admitted only when they leave the world unchanged; the harness oracle checks the "
+                "semantic condition (relative order of surviving entries unchanged) on the implementation"]
     rule = ("operation scripts over 1-3 tables of one class (Hashtable / OrderedKeysHashtable / OrderedValuesHashtable <int,int>, default or "
             "colliding hash functor) and up to 5 HashtableIterators, from random.Random(seed); after EVERY operation the result, every "
             "table's order read through the next links (and cross-checked through the prev links), count, capacity, auto-sort flag, "
